@@ -141,7 +141,8 @@ Inductive uop :=
 | URslvNew (r node : Z)
 | UResolve (r : Z) (n : rname) (port : Z) (h : Z)
 | URslvCancel (r : Z)
-| UPcapOn.
+| UPcapOn
+| USetNextPort (n : Z).                 (* verification hook: simulation::verif_set_next_bind_port *)
 
 (* state of the two composed operations the harness offers (one per socket) *)
 Record wall := mkWall { wa_rest : list Z; wa_done : Z; wa_chunk : Z; wa_h : Z }.
